@@ -16,6 +16,7 @@ OBVIOUS_REDIRECTS_RE = re.compile(
     % r"(?:redirect(?:_to)?|target|redir|next|link|orig|goto|url|[luq])",
     re.I,
 )
+LEADING_JUNK_RE = re.compile(r"^[\s\x00-\x1f\x7f-\x9f]+")
 AUTHORITY_RE = re.compile(r"^(?:[a-zA-Z][a-zA-Z0-9+.-]*:)?//[^/?#]*")
 REDIRECTION_DOMAINS_RE = re.compile(
     r"(?:\.ampproject\.org/[cv]/(?:s/)?|bc\.marfeelcache\.com/amp/|bc\.marfeel\.com/)",
@@ -74,11 +75,14 @@ def infer_redirection(url, recursive=True):
             # Basic relative url
             elif potential_target.startswith("/"):
                 # NOTE: urljoin drops the host of an url without protocol
+                # NOTE: nor do leading blanks or control characters hide the protocol
                 try:
-                    if PROTOCOL_RE.match(url):
-                        target = urljoin(url, potential_target)
+                    base = LEADING_JUNK_RE.sub("", url)
+
+                    if PROTOCOL_RE.match(base):
+                        target = urljoin(base, potential_target)
                     else:
-                        target = urljoin("http://" + url, potential_target)[7:]
+                        target = urljoin("http://" + base, potential_target)[7:]
 
                 # NOTE: "//[::1" or an url with an unbalanced bracket cannot be joined
                 except ValueError:
